@@ -2,6 +2,7 @@
 //! /repo, hooks enabled) with the same line protocol the Lean model driver reads.
 mod conc;
 mod pure;
+mod push;
 mod seq;
 mod util;
 
@@ -57,6 +58,13 @@ fn main() {
                 out.push('\n');
                 side.push_str(&s);
                 side.push('\n');
+            }
+        }
+        "push" => {
+            let rt = tokio::runtime::Builder::new_current_thread().enable_all().build().unwrap();
+            for l in rt.block_on(push::run(&input)) {
+                out.push_str(&l);
+                out.push('\n');
             }
         }
         "conc" => {
